@@ -20,7 +20,7 @@ def _init(facts):
 class Res:
     """picklable summary of one K2 run"""
     __slots__ = ("ctx", "df", "icao", "icao_opt", "pre", "post_update", "post_create", "stores", "obligations", "warnings",
-                 "diverged", "steps", "wall", "calllog", "new_row", "side", "gate", "message", "gate_preds", "dl")
+                 "diverged", "steps", "wall", "calllog", "new_row", "side", "gate", "message", "gate_preds", "dl", "post_update2")
 
 
 def _run(args):
@@ -43,7 +43,7 @@ def _run(args):
         out.calllog = []
         out.new_row = None
         out.side = {}
-        out.gate = out.message = out.dl = None
+        out.gate = out.message = out.dl = out.post_update2 = None
         out.gate_preds = []
         return out
     out = Res()
@@ -67,6 +67,7 @@ def _run(args):
     out.message = getattr(r, "message", None)
     out.gate_preds = getattr(r, "gate_preds", [])
     out.dl = getattr(r, "dl", None)
+    out.post_update2 = getattr(r, "post_update2", None)
     return out
 
 
